@@ -540,7 +540,10 @@ func (s *JavaFullListener) EnterMethodCall(ctx *parser.MethodCallContext) {
 	if targetCtx.GetChild(0) != nil {
 		switch x := targetCtx.GetChild(0).(type) {
 		case *parser.MethodCallContext:
-			targetType = x.Identifier().GetText()
+			// this(...).m() and super(...).m(): the inner call has no identifier
+			if x.Identifier() != nil {
+				targetType = x.Identifier().GetText()
+			}
 		}
 	}
 
